@@ -2,4 +2,4 @@
 round trips for every call the argument normalisation accepts (Properties/C04Sub, over Paho.Model.SubArgs). -/
 import PahoProofs.Properties.C04
 import PahoProofs.Properties.C04Sub
-import PahoProofs.Properties.FnEquiv
+import PahoProofs.Properties.FnRemLen
